@@ -4,7 +4,12 @@
  *
  * casefile: one scenario per line
  *     <id> <api> [safe=0|1] [hcoll=0|1] [aggr=0|1] [dup=0|1] [pre=<state>] [mu=<bytes>] [post=abort] cls=<c0>,<c1>,...
- * one class per rank (cls count must equal np).  For every scenario a fresh file <workdir>/<id>.nc
+ * one class per rank (cls count must equal np).  pre = state the file is brought to before the call:
+ * (empty)/data = collective data mode, indep, indep_put (ranks whose class contains '+' wrote a new
+ * record independently), redef, redef_grow / redef_addrec / redef_addfix (define mode after redef with
+ * a grown header / a new record variable / a new filled fixed-size variable), new (first define mode),
+ * empty (new file without dimensions and variables), closed (file exists, closed), none (no file).
+ * For every scenario a fresh file <workdir>/<id>.nc
  * is prepared (fixed setup, see setup_file), then the ONE call under test is issued by every
  * rank with the arguments its class prescribes, then the file is brought back to a closable
  * state and closed, then every rank re-opens the file on MPI_COMM_SELF and checks that the data
